@@ -49,11 +49,12 @@
 //!
 //! | component-attr (value after `=` in a component call is a bare integer / float / bool /      |
 //! | identifier / operator / missing; inline and body form; T = that token), reserved-name       |
-//! | (T = the reserved word)       | Syntax    | Contains T                                        |
+//! | (T = the reserved word), component-stray-token (a token that cannot start an attribute in   |
+//! | a component call, T = that token; regression cases of the fixed finding F19, where the      |
+//! | engine named the last CONSUMED token before it)                                             |
+//! |                               | Syntax    | Contains T                                        |
 //! | component-call-misc, component-def                                                          |
-//! |                               | Syntax    | Overlaps T (for a stray token in attribute        |
-//! |                               |           | position T = previous token + stray token: the    |
-//! |                               |           | engine names the last CONSUMED token there)       |
+//! |                               | Syntax    | Overlaps T                                        |
 //!
 //! Call sites: include tags and component calls also sit inside output captures (filter section,
 //! set block, body of a component call, and nestings of those) and inside component bodies; every
@@ -990,13 +991,15 @@ fn gen_fault(rng: &mut Rng, set: &TSet, slot: usize, after: &str, forced: Option
             ("component-attr", "{{ <ui.badge x=-1 /> }}".into(), "-".into(), Contains, Expect::Syntax),
             ("component-attr", "{{ <ui.badge x= /> }}".into(), "/".into(), Contains, Expect::Syntax),
             ("component-attr", "{% set zq = <ui.badge x=\n 7 /> %}".into(), "7".into(), Contains, Expect::Syntax),
-            // a stray token in attribute position: the engine names the token BEFORE it (`badge`),
-            // the last one consumed, so only an overlap with "previous token + stray token" is asked
-            ("component-call-misc", "{{ <ui.badge 42 /> }}".into(), "badge 42".into(), Overlaps, Expect::Syntax),
-            ("component-call-misc", "{{ <ui.badge =1 /> }}".into(), "badge =".into(), Overlaps, Expect::Syntax),
-            ("component-call-misc", "{{ <ui.badge s=\"a\" ) /> }}".into(), "\"a\" )".into(), Overlaps, Expect::Syntax),
-            ("component-call-misc", "{{ <ui.badge / x> }}".into(), "/ x".into(), Overlaps, Expect::Syntax),
-            ("component-call-misc", "{{ <ui.badge x={n s=\"a\" /> }}".into(), "{n s".into(), Overlaps, Expect::Syntax),
+            // a stray token in attribute position (regression cases of the fixed finding F19: the
+            // engine used to name the token BEFORE the stray one, the last one consumed)
+            ("component-stray-token", "{{ <ui.badge 42 /> }}".into(), "42".into(), Contains, Expect::Syntax),
+            ("component-stray-token", "{{ <ui.badge =1 /> }}".into(), "=".into(), Contains, Expect::Syntax),
+            ("component-stray-token", "{{ <ui.badge s=\"a\" ) /> }}".into(), ")".into(), Contains, Expect::Syntax),
+            ("component-stray-token", "{{ <ui.badge / x> }}".into(), "@x".into(), Contains, Expect::Syntax),
+            ("component-stray-token", "{{ <ui.badge x={n s=\"a\" /> }}".into(), "@s".into(), Contains, Expect::Syntax),
+            ("component-stray-token", "{% <ui.card 42> %}x{% </ui.card> %}".into(), "42".into(), Contains, Expect::Syntax),
+            ("component-stray-token", "{% <ui.card s=\"é😀\" + > %}x{% </ui.card> %}".into(), "+".into(), Contains, Expect::Syntax),
             ("component-call-misc", "{% < 1 > %}x".into(), "< 1 >".into(), Overlaps, Expect::Syntax),
             ("component-def", "{% component cq15() {\"css\": a} %}{% endcomponent %}".into(), "{% component cq15() {\"css\": a} %}{% endcomponent %}".into(), Overlaps, Expect::Syntax),
             ("component-call-misc", "{{ <ui.card> }}".into(), "<ui.card> }}".into(), Overlaps, Expect::Syntax),
@@ -1084,7 +1087,7 @@ fn all_classes() -> Vec<&'static str> {
         "in-non-container", "spread-non-array", "component-bad-call", "not-iterable", "kv-on-array", "super-misuse", "unexpected-char",
         "unterminated-string", "bad-escape", "unterminated-var", "unterminated-tag", "missing-end-tag", "unknown-tag", "elif-after-else",
         "extends-misplaced", "duplicate-block", "int-literal-too-large", "empty-expr", "missing-operand", "stray-end-tag", "too-deep",
-        "unknown-name", "parser-misc", "unterminated-comment", "unterminated-raw", "component-attr", "component-call-misc", "component-def", "reserved-name",
+        "unknown-name", "parser-misc", "unterminated-comment", "unterminated-raw", "component-attr", "component-call-misc", "component-def", "reserved-name", "component-stray-token",
     ]
 }
 
